@@ -31,9 +31,9 @@ contract(F, "ReverseRule.shifts", props=["C10"],
          requires=["0 <= self.idx", "self.idx < len(rule_shifts(self.original_rule))"],
          ensures=["len(result) == len(rule_shifts(self.original_rule))",
                   "result[0] == -rule_shifts(self.original_rule)[self.idx]",
-                  # child j+1 of the reverse rule is original child j (j < idx) resp. j+1 (j >= idx)
-                  "forall(lambda j: implies(0 <= j and j < self.idx, result[j + 1] == "
-                  "rule_shifts(self.original_rule)[j] - rule_shifts(self.original_rule)[self.idx]))",
+                  # child j of the reverse rule (j >= 1) is original child j-1 (j <= idx) resp. j (j > idx)
+                  "forall(lambda j: implies(1 <= j and j <= self.idx, result[j] == "
+                  "rule_shifts(self.original_rule)[j - 1] - rule_shifts(self.original_rule)[self.idx]))",
                   "forall(lambda j: implies(self.idx < j and j < len(result), result[j] == "
                   "rule_shifts(self.original_rule)[j] - rule_shifts(self.original_rule)[self.idx]))"],
          modifies=["self.original_rule._shifts"],
